@@ -69,6 +69,15 @@ func (d *directWriter) bytes() []byte {
 // before the writer is constructed (path target only)
 // faults: write-fault script of the output target (stream targets only: the path target opens its own
 // *os.File, which cannot be interposed without a library hook); the direct writer's stream gets a copy
+// dKids: re-entrant registration: the callback with id k, when it fires, calls dcw.OnPut for each listed
+// (id, once) callback -- from inside the running Put
+type dKid struct {
+	id   uint64
+	once bool
+}
+
+var dKids map[uint64][]dKid // set by the producer / replayer around runDeferredImpl (single-threaded)
+
 func runDeferredImpl(work string, target uint64, v1Given bool, o wOpts, roots []cid.Cid, ops VL, pre []byte, faults []int) Val {
 	ctx := context.Background()
 	dir, err := os.MkdirTemp(work, "df")
@@ -98,6 +107,7 @@ func runDeferredImpl(work string, target uint64, v1Given bool, o wOpts, roots []
 	}
 	var direct *directWriter
 	handles := map[uint64]*openerHandle{}
+	sharedOpener := dcw.BlockWriteOpener()
 	closed := false
 	var log VL
 	obs := VL{}
@@ -109,7 +119,16 @@ func runDeferredImpl(work string, target uint64, v1Given bool, o wOpts, roots []
 		switch tag {
 		case "onput":
 			id := uint64(op[1].(VN))
-			dcw.OnPut(func(n int) { log = append(log, VL{VN(id), VN(uint64(n))}) }, uint64(op[2].(VN)) != 0)
+			var mk func(id uint64) func(int)
+			mk = func(id uint64) func(int) {
+				return func(n int) {
+					log = append(log, VL{VN(id), VN(uint64(n))})
+					for _, kd := range dKids[id] {
+						dcw.OnPut(mk(kd.id), kd.once)
+					}
+				}
+			}
+			dcw.OnPut(mk(id), uint64(op[2].(VN)) != 0)
 			out = outNil()
 		case "has":
 			has, err := dcw.Has(ctx, string([]byte(op[1].(VB))))
@@ -119,7 +138,14 @@ func runDeferredImpl(work string, target uint64, v1Given bool, o wOpts, roots []
 				out = VL{VT("bool"), vbool(has)}
 			}
 		case "open":
-			w, commit, err := dcw.BlockWriteOpener()(linking.LinkContext{Ctx: ctx})
+			// writers named below 100 come from ONE opener value obtained once per deferred writer (what
+			// LinkSystem.StorageWriteOpener = dcw.BlockWriteOpener() does: several blocks can be in flight
+			// through it); names from 100 on obtain a fresh opener for each open
+			op1 := sharedOpener
+			if uint64(op[1].(VN)) >= 100 {
+				op1 = dcw.BlockWriteOpener()
+			}
+			w, commit, err := op1(linking.LinkContext{Ctx: ctx})
 			if err == nil {
 				handles[uint64(op[1].(VN))] = &openerHandle{w: w, commit: commit}
 			}
@@ -220,7 +246,17 @@ func deferredInput(target uint64, v1Given bool, o wOpts, roots []cid.Cid, ops VL
 			fv = append(fv, VL{VN(uint64(k))})
 		}
 	}
-	return VL{VN(target), vbool(v1Given), o.val(), rv, ops, pv, fv}
+	kv := VL{}
+	for _, id := range []uint64{1, 2, 5, 8} { // fixed order
+		if l, ok := dKids[id]; ok {
+			e := VL{}
+			for _, kd := range l {
+				e = append(e, VL{VN(kd.id), vbool(kd.once)})
+			}
+			kv = append(kv, VL{VN(id), e})
+		}
+	}
+	return VL{VN(target), vbool(v1Given), o.val(), rv, ops, pv, fv, kv}
 }
 
 func init() {
@@ -236,6 +272,18 @@ func init() {
 		if len(l) > 6 {
 			faults = faultsFromVal(l[6])
 		}
+		dKids = nil
+		if len(l) > 7 {
+			dKids = map[uint64][]dKid{}
+			for _, e := range l[7].(VL) {
+				el := e.(VL)
+				for _, x := range el[1].(VL) {
+					xl := x.(VL)
+					dKids[uint64(el[0].(VN))] = append(dKids[uint64(el[0].(VN))], dKid{uint64(xl[0].(VN)), uint64(xl[1].(VN)) != 0})
+				}
+			}
+		}
+		defer func() { dKids = nil }()
 		return runDeferredImpl(c.Work, uint64(l[0].(VN)), uint64(l[1].(VN)) != 0, wOptsFromVal(l[2]), cidsFromVal(l[3]), l[4].(VL), pre, faults)
 	})
 }
